@@ -35,6 +35,13 @@ CLAIMED = {
   "note": "Trusted base: the reference encoder and the value walker; the serialize feature is built by this check (it is not in the 42-test baseline); cookie-factory is a real dependency, not modelled.",
   "technique": "deterministic simulation: real serializer -> fault-injecting Write sink -> real parser, byte oracle from a reference encoder, seeded sink fault positions",
  },
+ "C10": {
+  "category": "exploration",
+  "text": "DTLS exists because datagrams are lost, duplicated, reordered and size-limited; fragmentation, several records per datagram and the header fields a reassembler needs are consequences of the transport. The check simulates a DTLS sender (flights, MTU fragmentation, retransmit timers on a simulated clock with MTU change), a faulty datagram network (loss, duplication, reordering, truncation at any byte) and a monitor running the real DTLS parsers on every delivered datagram. Per datagram: reference 13-byte framer (cap, exact consumption, Incomplete iff truncated inside the record, exact Needed), header and 12-byte handshake header fields verbatim against the sender's log, fragment predicate, fragment body by address, decoded bodies of the listed kinds, CCS/alert, record order. End to end: a harness reassembler fed only with what the real parser returned must rebuild, byte-exact, every message all of whose bytes were delivered in fragments, and the rebuilt message must decode to the sent value. Conversations are sampled: evidence, not proof.",
+  "design_ref": "DESIGN.md section 3 (C10)",
+  "note": "Trusted base: reference encoder, 13-byte framer, sender log; the parser is stateless, so transport faults generate field combinations rather than parser states; unfragmented messages of unlisted kinds are unconstrained.",
+  "technique": "deterministic simulation: DTLS sender with retransmit timers on a simulated clock + faulty datagram network, per-datagram sender-log oracle and end-to-end reassembly conservation",
+ },
  "C16": {
   "category": "exploration",
   "text": "The argument of the many-parsers in a real reader is the receive buffer: n complete records followed by whatever the network has delivered so far. The simulated monitor applies tls_parser_many (and parse_dtls_plaintext_records on datagrams) to its buffer at every delivery event of seeded streams with truncation, oversize headers, length lies, garbage and corruption, and compares with an explicit loop over the single-record parser (list, remainder by address, fails iff the first record fails); tls_parser is compared with parse_tls_plaintext as full results on every buffer.",
@@ -46,5 +53,4 @@ CLAIMED = {
 PENDING = {
  "C01": "claimed in DESIGN.md; check not built yet in this revision",
  "C06": "claimed in DESIGN.md; check not built yet in this revision",
- "C10": "claimed in DESIGN.md; check not built yet in this revision",
 }
